@@ -309,6 +309,31 @@ def eval_atom_with(atom, term, value):
     return None
 
 
+def eval_atom_env(atom, env):
+    """truth of a normalised atom after replacing the terms in env (term -> int); None if it does not fold"""
+    sub = lambda t: subst_env(t, env)
+    if atom[0] == "rel":
+        a, b = eval_int(sub(atom[2])), eval_int(sub(atom[3]))
+        if a is None or b is None:
+            return None
+        return {"Eq": a == b, "Ne": a != b, "Lt": a < b, "Le": a <= b}.get(atom[1])
+    if atom[0] == "bool":
+        v = eval_int(sub(atom[1]))
+        return None if v is None else (bool(v) == atom[2])
+    return None
+
+
+def subst_env(t, env):
+    """replace the terms of env by integers, largest terms first (a key may contain another key)"""
+    for k in sorted(env, key=lambda k: -len(str(k))):
+        t = map_term(t, lambda x, k=k: ("int", env[k]) if x == k else None)
+    return t
+
+
+def eval_term_env(t, env):
+    return eval_int(subst_env(t, env))
+
+
 def match_table(body, getters=None):
     """for a function that is a `match` on a discriminant / integer returning constants: {switch value: returned term, 'otherwise': term}"""
     out = {}
